@@ -88,14 +88,21 @@ class BlockDiagonalOperator(EndomorphicOperator):
 
     def _combine_chain(self, op):
         check_object_identity(self._domain, op._domain)
-        res = {key: v1(v2)
-               for key, v1, v2 in zip(self._domain.keys(), self._ops, op._ops)}
+        # A missing block (None) is the identity
+        res = {}
+        for key, v1, v2 in zip(self._domain.keys(), self._ops, op._ops):
+            if v1 is None and v2 is None:
+                continue
+            res[key] = v2 if v1 is None else (v1 if v2 is None else v1(v2))
         return BlockDiagonalOperator(self._domain, res)
 
     def _combine_sum(self, op, selfneg, opneg):
         from ..operators.sum_operator import SumOperator
         check_object_identity(self._domain, op._domain)
-        res = {key: SumOperator.make([v1, v2], [selfneg, opneg])
+        from ..operators.scaling_operator import ScalingOperator
+        # A missing block (None) is the identity
+        unity = lambda key, vv: ScalingOperator(self._domain[key], 1.) if vv is None else vv
+        res = {key: SumOperator.make([unity(key, v1), unity(key, v2)], [selfneg, opneg])
                for key, v1, v2 in zip(self._domain.keys(), self._ops, op._ops)}
         return BlockDiagonalOperator(self._domain, res)
 
